@@ -195,6 +195,8 @@ def main():
     for o in obs:
         o['module'] = modname
         o.setdefault('timeout', 120)
+        if os.environ.get('VERIF_TIMEOUT_CAP'):
+            o['timeout'] = min(o['timeout'], int(os.environ['VERIF_TIMEOUT_CAP']))
         o.setdefault('group', o['fn'])
     # seed only permutes scheduling order
     order = list(obs)
@@ -304,6 +306,7 @@ def main():
                        'replay_cmd': './vcheck replay ' + os.path.relpath(rp, ROOT)}, open(rp, 'w'), indent=1)
             if kf:
                 known_hit.append((kf, ob['name'], reason, rp))
+                cov['masked_by_known_findings'] = cov.get('masked_by_known_findings', 0) + 1
             else:
                 violations.append((ob['name'], reason, rp, args))
         elif status == 'HARNESS_ERROR':
